@@ -393,3 +393,39 @@ pub fn files_from(lines: &[&str], parts: &[usize]) -> Vec<Vec<u8>> {
     }
     out
 }
+
+/// follow-mode driver: the real FollowFileIterator over a file holding `content`, every delivered line fed to the
+/// engine with ExecutionConfig::default() (what FollowFileExecutor does); the iteration is ended through the
+/// FollowRetry hook when the reader has reached the end of the file. Returns the tables shown, in order.
+pub fn run_follow(tables: &Tables, stmt: &Statement, content: &[u8]) -> Outcome<Vec<StepOut>> {
+    use sqlgrep::helpers::FollowFileIterator;
+    use sqlgrep::verif_hooks::{self, Action, Point};
+    let tmp = TempFiles::new(&[content]);
+    verif_hooks::set(Box::new(|p| if p == Point::FollowRetry { Action::Stop } else { Action::Continue }));
+    let r = catch(|| -> Result<Vec<StepOut>, String> {
+        let mut engine = ExecutionEngine::new(tables, stmt);
+        let config = ExecutionConfig::default();
+        let mut outs = Vec::new();
+        if engine.reached_limit() {
+            return Ok(outs);
+        }
+        let reader = std::io::BufReader::new(File::open(&tmp.paths[0]).map_err(|e| e.to_string())?);
+        for line in FollowFileIterator::new(reader) {
+            let o = engine.execute(line, &config).map_err(|e| format!("{}", e))?;
+            let reached = o.reached_limit;
+            if o.result_row.is_some() {
+                outs.push(StepOut { table: o.result_row.as_ref().map(table_of), reached_limit: reached });
+                if reached {
+                    break;
+                }
+            }
+        }
+        Ok(outs)
+    });
+    verif_hooks::clear();
+    match r {
+        Ok(Ok(t)) => Outcome::Ok(t),
+        Ok(Err(e)) => Outcome::Err(e),
+        Err(p) => Outcome::Panic(p),
+    }
+}
